@@ -24,6 +24,10 @@ import (
 	"io"
 	"math/rand"
 	"net"
+	"os"
+	"os/exec"
+	"path/filepath"
+	"sort"
 	"strconv"
 	"strings"
 	"sync"
@@ -391,6 +395,12 @@ func c07List(s string) (kind string, items []string) {
 }
 
 func runC07(f []string) string {
+	if len(f) >= 3 && f[0] == "mfile" {
+		if os.Getenv("VERIF_C07_CHILD") == "" {
+			return c07Parent(strings.Join(f, " "))
+		}
+		return c07RunMfile(c07KV(f[1:]))
+	}
 	if len(f) < 3 || (f[0] != "trace" && f[0] != "chunk") {
 		return "badcase"
 	}
@@ -511,6 +521,7 @@ func genC07(g *gen) {
 		genC07Chunk(g, atoi(extraArgs[1]))
 		return
 	}
+	genC07Mfile(g)
 	n := g.pick(420, 6000)
 	dbPool := []int{0, 1, 2, 3, 5, 9, 15, 16, 300}
 	for ci := 0; ci < n; ci++ {
@@ -677,6 +688,41 @@ func genC07(g *gen) {
 
 // scaled build (chunk limit L bytes): one hash whose every field/value pair exceeds L, so that the loader delivers it
 // as one entry per pair (first: NeedReadLen=1, then continuation chunks), among a few plain strings
+// genC07Mfile: several input files, fewer routines than files or as many, an optional failing key in any of the files
+func genC07Mfile(g *gen) {
+	n := g.pick(24, 400)
+	for i := 0; i < n; i++ {
+		nf := 1 + g.r.Intn(4)
+		var files []string
+		var keys []string
+		for fi := 0; fi < nf; fi++ {
+			ne := 1 + g.r.Intn(6)
+			if fi == nf-1 && g.r.Intn(2) == 0 {
+				ne = 1 // the last file shorter than the worker count
+			}
+			var es []c07Entry
+			for k := 0; k < ne; k++ {
+				key := []byte(fmt.Sprintf("f%dk%d", fi, k))
+				es = append(es, c07Entry{db: []int{0, 0, 1, 3, 12}[g.r.Intn(5)], key: key, kind: 0, flags: "000"})
+				keys = append(keys, hx(key))
+			}
+			files = append(files, c07Join(es))
+		}
+		fail := "-"
+		if i%2 == 0 {
+			fail = keys[g.r.Intn(len(keys))]
+			if g.r.Intn(3) == 0 {
+				fail = keys[0] // a failure in the first file, later files succeed
+			}
+		}
+		rp := 1 + g.r.Intn(nf)
+		if g.r.Intn(3) == 0 {
+			rp = 1
+		}
+		g.emit("mfile rp=%d P=%d fail=%s dseed=%d F=%s", rp, 1+g.r.Intn(4), fail, g.r.Intn(1<<30), strings.Join(files, "|"))
+	}
+}
+
 func genC07Chunk(g *gen, L int) {
 	r := g.r
 	n := g.pick(16, 200)
@@ -713,4 +759,120 @@ func genC07Chunk(g *gen, L int) {
 		g.emit("chunk %s P=%d tdb=-1 kx=%s lua=0 fail=- dseed=%d slow=%s vlen=%d scaled=%d fdb=- fkey=- fslot=- E=%s",
 			mode, P, kx, r.Intn(1<<30), slow, L+6, L, c07Join(es))
 	}
+}
+
+// ---------------------------------------------------------------- restore mode's driver over several input files
+//
+// case line:  mfile rp=<source.rdb.parallel> P=<parallel> fail=<keyhex|-> dseed=<n> F=<entries of file 0>|<entries of file 1>|…
+// The REAL CmdRestore.Main runs (routines pulling input files from a channel, each file through dbRestorer.restore) against the fake
+// target; a failing RESTORE must end the run as a failure — the code does that by exiting the process (log.Panic*), so the
+// case runs in a child process: `abort` = the child ended through log.Panic*. Otherwise the line lists what was written where.
+
+func c07Parent(line string) string {
+	cmd := exec.Command(os.Args[0], "run", "C07")
+	cmd.Env = append(os.Environ(), "VERIF_C07_CHILD=1")
+	in, _ := cmd.StdinPipe()
+	out, _ := cmd.StdoutPipe()
+	var tail bytes.Buffer
+	cmd.Stderr = &tail
+	if err := cmd.Start(); err != nil {
+		return "spawn-failed"
+	}
+	type ans struct {
+		s   string
+		err error
+	}
+	ch := make(chan ans, 1)
+	go func() {
+		io.WriteString(in, line+"\n")
+		s, err := bufio.NewReaderSize(out, 1<<20).ReadString('\n')
+		ch <- ans{strings.TrimRight(s, "\n"), err}
+	}()
+	select {
+	case a := <-ch:
+		in.Close()
+		if a.err != nil {
+			cmd.Wait()
+			if strings.Contains(tail.String(), "VerifExit") {
+				return "abort"
+			}
+			return "crash"
+		}
+		cmd.Process.Kill()
+		cmd.Wait()
+		return a.s
+	case <-time.After(40 * time.Second):
+		cmd.Process.Kill()
+		cmd.Wait()
+		return "timeout"
+	}
+}
+
+func c07RunMfile(kv map[string]string) (res string) {
+	// log.Panic* on the goroutine that called Main ends the process just as it does on a routine's goroutine
+	defer func() {
+		if e := recover(); e != nil {
+			if _, ok := e.(log.VerifExit); ok {
+				res = "abort"
+				return
+			}
+			panic(e)
+		}
+	}()
+	dir, err := os.MkdirTemp("", "c07mfile")
+	if err != nil {
+		return "tmpdir-error"
+	}
+	defer os.RemoveAll(dir)
+	var inputs []string
+	for i, fe := range strings.Split(kv["F"], "|") {
+		p := filepath.Join(dir, fmt.Sprintf("in%d.rdb", i))
+		if err := os.WriteFile(p, c07RDB(c07ParseEntries(fe), 8), 0600); err != nil {
+			return "tmpfile-error"
+		}
+		inputs = append(inputs, p)
+	}
+	c07Start()
+	sess := &c07Session{dseed: int64(atoi(kv["dseed"]))}
+	if kv["fail"] != "-" {
+		sess.failKey = unhx(kv["fail"])
+	}
+	c07Srv.mu.Lock()
+	c07Srv.cur = sess
+	c07Srv.mu.Unlock()
+
+	conf.Options = conf.Configuration{}
+	conf.Options.Type = conf.TypeRestore
+	conf.Options.Parallel = atoi(kv["P"])
+	conf.Options.SourceRdbInput = inputs
+	conf.Options.SourceRdbParallel = atoi(kv["rp"])
+	conf.Options.TargetDB = -1
+	conf.Options.TargetType = "standalone"
+	conf.Options.TargetAddressList = []string{c07Srv.addr}
+	conf.Options.TargetAuthType = "auth"
+	conf.Options.KeyExists = "none"
+	conf.Options.BigKeyThreshold = 1 << 20
+	conf.Options.TargetVersion = "4.0.9"
+	conf.Options.HttpProfile = -1 // Main returns when the restore is done
+	(&run.CmdRestore{}).Main()
+
+	// what was written where: per connection the selected database, then every RESTORE that was answered OK
+	db := map[string]int{}
+	var wrote []string
+	for _, it := range strings.Split(sess.snapshot(), ",") {
+		p := strings.Split(it, ":")
+		if len(p) != 5 {
+			continue
+		}
+		switch p[1] {
+		case "select":
+			db[p[0]] = atoi(p[2])
+		case "restore":
+			if p[4] == "1" {
+				wrote = append(wrote, fmt.Sprintf("%d:%s", db[p[0]], p[2]))
+			}
+		}
+	}
+	sort.Strings(wrote)
+	return "res=ok W=" + strings.Join(wrote, ",")
 }
